@@ -26,9 +26,9 @@ DIV_CALLS = [0]
 
 
 def install_div_counter():
-    "count keep-factor updates: V.div is used by the Meek rules for nothing else"
-    for cls in (Fixed, Guarded, Rational):
-        orig = cls.__dict__['div']
+    "count keep-factor updates: the Meek rules use V.div / V.muldiv for nothing else (either form of the update is counted)"
+    for cls, name in [(c, n) for c in (Fixed, Guarded, Rational) for n in ('div', 'muldiv')]:
+        orig = cls.__dict__[name]
         f = orig.__func__
 
         def make(f, is_static):
@@ -42,7 +42,7 @@ def install_div_counter():
                 DIV_CALLS[0] += 1
                 return f(cls_, *a, **k)
             return classmethod(div)
-        setattr(cls, 'div', make(f, isinstance(orig, staticmethod)))
+        setattr(cls, name, make(f, isinstance(orig, staticmethod)))
 
 
 def check(run):
@@ -66,7 +66,7 @@ def check(run):
     prev = None
     for ev in run.events:
         if not ev.has_snap:
-            if 'stable' in ev.msg.lower():      # whatever the wording: a log action of this round saying the surplus stopped decreasing
+            if ev.tag == 'log':     # whatever its wording: a log action written during this round's iteration (the rules log nothing else there)
                 stable_log_in_round = True
             continue
         if ev.tag == 'round':
@@ -111,7 +111,7 @@ def check(run):
                         st['elected_kf_lt1'] = True
         # ---------------- end-of-iteration discipline
         if ev.tag == 'iterate':
-            kind = ev.msg[ev.msg.index('(') + 1:ev.msg.rindex(')')]
+            kind = (ev.msg[ev.msg.index('(') + 1:ev.msg.rindex(')')].lower().split() or ['?'])[0]      # 'stable surplus' is still a stable exit
             iterate_in_round = kind
             if kind == 'omega':
                 st['omega'] += 1
@@ -121,7 +121,7 @@ def check(run):
             elif kind == 'stable':
                 st['stable'] += 1
                 if not stable_log_in_round:
-                    bad('stable-exit-not-logged', 'iteration ended as stable without a "Stable state detected" log', ev)
+                    bad('stable-exit-not-logged', 'iteration ended as stable without any log action saying so in that round', ev)
         if ev.tag == 'defeat' and 'remaining' not in ev.msg.lower():
             st['excl'] += 1
             if prf:
